@@ -126,6 +126,8 @@ def run_one(sc):
     class Tap:
         def put(self, pkt):
             pid = pkt.packet_id
+            if len(ev) > 1500:
+                raise RuntimeError("runaway: more than 1500 events")     # e.g. a send loop that never blocks
             new = (pid == snd.next_seq) and pid not in last_tx
             last_tx[pid] = env.now
             if st["in_put"]:
